@@ -958,7 +958,22 @@ def c18(prop, tier):
                                             "TLC evaluates the scalar definitions correctly (cross-checked with a naive Go loop on every call)"])
 
 
+def c07(prop, tier):
+    q = tier == "quick"
+    gen = ("COMPILE", {"MaxLen": 3 if q else 4, "Shard": (vlib.seed() + 1) % 2 if q else (vlib.seed() + 1) % 4, "NShards": 2 if q else 4},
+           "MC_Compile", "compile")
+    return run_search_family(prop, tier, prop, subcmd="wellformed", extra_jobs=[gen], budget_scale=0.35 if q else 0.5,
+                             rule="(i) every TLC-enumerated pattern string and limit family offered to Compile: a value or an error, never a panic or a "
+                                  "missed deadline; (ii) for every TLC-generated (pattern, haystack) and a pumped copy: 14 groups of search / enumeration / "
+                                  "replace calls with the haystack flush against a PROT_NONE page (end, then start) and its own pages read-only, under "
+                                  "SetPanicOnFault; every result checked against the well-formedness predicates that MC_Search asserts of the reference "
+                                  "(bounds, capture nesting, ordering, non-overlap) and aliasing; non-trivial = the reference has a match",
+                             assumptions=["stray reads and writes are observed through guard pages and read-only mappings (self-tested at start-up), not proved absent",
+                                          "non-termination is observed as a missed deadline of 120 s per record"])
+
+
 REGISTRY = {
+    "C07": c07,
     "C18": c18,
     "C05": c05,
     "C20": c20,
